@@ -231,8 +231,20 @@ def run_case(data):
                 if ch.chance(48):
                     # stream-bound ALTSVC is only legal before the response headers
                     field = b'h2=":%d"' % ch.int(1, 9999)
+                    edge = None
+                    if ch.chance(80) and mfs <= 40000:
+                        edge = ch.int(-2, 2)
+                        field = b'f' * (mfs - 2 + edge)      # the frame carries a 2-byte origin length as well
                     o = s.call('advertise_alternative_service', field, stream_id=sid)
-                    r.step('advertise_alternative_service', sid, o.brief())
+                    r.step('advertise_alternative_service', sid, 'field bytes', len(field), o.brief())
+                    if not o.ok and edge is not None and edge > 0:
+                        if o.out:
+                            r.violate('C02:refused-call-emitted:altsvc:%s' % o.exc_name,
+                                      repr([(f.name, f.length) for f in o.frames]))
+                            break
+                        r.labels.add('altsvc-frame-edge-refused')
+                        o = s.call('advertise_alternative_service', b'h2=":1"', stream_id=sid)
+                        field = b'h2=":1"'
                     if not o.ok:
                         r.violate('C02:valid-altsvc-refused:%s' % o.exc_name, '')
                         break
@@ -287,11 +299,28 @@ def run_case(data):
             sid = ch.pick(can_send)
             pad = ch.pick([None, None, 0, 1, 255, ch.int(0, 255)])
             over = 0 if pad is None else pad + 1
-            n = ch.weighted([(5, ch.int(0, 100)), (2, mfs - over), (1, mfs - over - 1), (1, 0)])
+            n = ch.weighted([(5, ch.int(0, 100)), (2, mfs - over), (1, mfs - over - 1), (1, 0), (2, -1)])
             if mfs > 100000 and n > 100000 and not ch.chance(16):
                 n = ch.int(0, 70000)
             q = s.call('local_flow_control_window', sid)
             room = (q.value if q.ok else 0) - over
+            if n == -1:
+                # payload that fits the frame on its own but not together with its padding: must be refused
+                if over == 0 or mfs > 100000 or room < mfs:
+                    continue
+                n = mfs - ch.int(0, over - 1)
+                o = s.call('send_data', sid, b'e' * n, end_stream=ch.bool(), pad_length=pad)
+                r.step('send_data (frame edge)', sid, n, 'pad', pad, o.brief())
+                if o.ok:
+                    r.violate('C02:frame-exceeds-peer-max-frame-size:send_data',
+                              'payload %d + padding %d > %d accepted' % (n, over, mfs))
+                    break
+                if o.out:
+                    r.violate('C02:refused-call-emitted:send_data:%s' % o.exc_name,
+                              repr([(f.name, f.length) for f in o.frames]))
+                    break
+                r.labels.add('data-frame-edge-refused')
+                continue
             n = max(0, min(n, room))
             if room < 0:
                 continue
@@ -410,11 +439,21 @@ def run_case(data):
                 continue
             field = b'h2=":%d"' % ch.int(1, 9999)
             origin = ch.pick([b'example.com', b'https://a.example:8443'])
+            edge = None
+            if ch.chance(64) and mfs <= 40000:
+                # a field that makes the frame (2 + origin + field bytes) just fit, or just not fit
+                edge = ch.int(-2, 2)
+                field = b'f' * (mfs - 2 - len(origin) + edge)
             o = s.call('advertise_alternative_service', field, origin=origin)
             want = {'t': wire.ALTSVC, 'sid': 0, 'fl': 0, 'f': {'origin': origin, 'field': field}}
-            r.step('advertise_alternative_service', 0, o.brief())
+            r.step('advertise_alternative_service', 0, 'field bytes', len(field), o.brief())
             if o.ok:
                 expect_frames(o, [want], 'altsvc')
+            elif edge is not None and edge > 0:
+                if o.out:
+                    r.violate('C02:refused-call-emitted:altsvc:%s' % o.exc_name,
+                              repr([(f.name, f.length) for f in o.frames]))
+                r.labels.add('altsvc-frame-edge-refused')
             else:
                 r.violate('C02:valid-altsvc-refused:%s' % o.exc_name, '')
         elif op == 'goaway':
